@@ -21,6 +21,19 @@ CHECKS = {
         ref="DESIGN.md §4 C08"),
 }
 
+CHECKS["C02"] = dict(
+    engine="W-NET",
+    technique=TECH + "ledger oracle (accept => that key genuinely signed exactly these protected/payload/signature bytes) over channel faults on real in-flight tokens; every single-bit flip of 14 tokens enumerated inside the search",
+    text="Seeded exploration of attester -> channel -> verifier runs: real tokens of all seven algorithms are damaged in flight (bit flips, byte edits, truncation, extension, cross-token splices of protected/payload/signature, header surgery incl. alg moved to the unprotected bucket / nil payload / empty signature, inflated length fields, concatenation) and misrouted to verifiers holding other keys; acceptance is allowed only for a (protected,payload,signature) triple the holder of that key produced. One exhaustive sub-space per batch: all single-bit flips of one token per algorithm x profile.",
+    note="Trusts the ledger (all signing goes through the harness), the harness CBOR walker (go-cose's decoder only as a fallback view), and the deterministic signing wrappers. ECDSA malleability is out of reach of the faults. Completeness (nothing genuine is rejected) is C03's half.",
+    ref="DESIGN.md §4 C02")
+CHECKS["C03"] = dict(
+    engine="W-NET",
+    technique=TECH + "conservation oracle on the fault-free arm of the attester/channel/verifier world: signed payload = validated encoding, decoded = original getter for getter, verifies in place, after decode and under go-cose directly",
+    text="Seeded exploration of fault-free attester -> verifier round trips over generated valid claims-sets (both profiles and an extension profile; built by field assignment or through setters), all seven algorithms and 13 pool keys, reused and fresh Evidence objects: tag-18 framing, payload byte-identical to ValidateAndEncodeClaimsToCBOR, protected alg, Verify on the signing Evidence, go-cose Verify with empty external data, decode-and-validate, getter-for-getter equality, decoded claims = decoding of the covered payload.",
+    note="'Valid' is the library's own Validate(); the space of valid claims-sets is sampled. Same trusted base as C02.",
+    ref="DESIGN.md §4 C03")
+
 NA = {
     "C01": "pure predicate of one claims-set: no history, fault, schedule or seam can change the verdict; deciding it needs an independent model over a value-class product space (input enumeration), which is not this technique",
     "C04": "CBOR acceptance/fidelity is a pure function of the input bytes, decided by an independent encoder over value classes; nothing for a scheduler or fault injector to own",
@@ -33,7 +46,7 @@ NA = {
     "C20": "envelope acceptance is a pure function of the input bytes, decided by enumerating envelope shapes with an independent encoder",
 }
 
-PENDING = {k: "claimed in DESIGN.md; its check is still under construction in this session and is therefore not registered yet" for k in ["C02","C03","C05","C06","C07","C11","C16","C17","C18"]}
+PENDING = {k: "claimed in DESIGN.md; its check is still under construction in this session and is therefore not registered yet" for k in ["C05","C06","C07","C11","C16","C17","C18"]}
 
 def main():
     checks = []
